@@ -124,9 +124,9 @@ def decide(pid, tier, seed, keep=False, only_obligation=None):
             names = [h["full"] for _, h in hs]
             htime = max(h.get("timeout", 300) for _, h in hs)
             jobs = int(os.environ.get("FV_JOBS", "12"))
-            run = kani.run_harnesses(crate_info["crate"], names, jobs=jobs, harness_timeout=htime, heavy=[h["full"] for _, h in hs if h.get("mem") == "high" and tier == "thorough"], huge=[h["full"] for _, h in hs if h.get("mem") == "huge"],   # the quick subsets are small enough (measured)
+            run = kani.run_harnesses(crate_info["crate"], names, jobs=jobs, harness_timeout=htime, heavy=[h["full"] for _, h in hs if h.get("mem") == "high" and tier == "thorough"], huge=[h["full"] for _, h in hs if h.get("mem") == "huge"], mid=[h["full"] for _, h in hs if h.get("mem") == "mid" and tier == "thorough"],   # the quick subsets are small enough (measured)
                                      total_timeout=P.get("total_timeout", 5400) if tier == "quick" else 12 * 3600,
-                                     batch=100000 if tier == "quick" else None)      # quick: one invocation (one compilation); its memory is measured
+                                     batch=60 if tier == "quick" else None)      # quick: at most two invocations (kani-driver memory 20 - 30 GB per 100 harnesses, measured)
             backends["kani"]["wall_s"] += run["wall_s"]
             backends["kani"]["cmd"] = run["cmd"]
             backends["kani"]["peak_rss_mb"] = run["peak_rss_kb"] // 1024
@@ -446,7 +446,7 @@ def main(argv):
                 log("thorough-only harnesses: %d" % len(hs))
                 if not hs:
                     return 0
-            run = kani.run_harnesses(info["crate"], [h["full"] for h in hs], jobs=int(os.environ.get("FV_JOBS", "12")), heavy=[h["full"] for h in hs if h.get("mem") == "high"], huge=[h["full"] for h in hs if h.get("mem") == "huge"],
+            run = kani.run_harnesses(info["crate"], [h["full"] for h in hs], jobs=int(os.environ.get("FV_JOBS", "12")), heavy=[h["full"] for h in hs if h.get("mem") == "high"], huge=[h["full"] for h in hs if h.get("mem") == "huge"], mid=[h["full"] for h in hs if h.get("mem") == "mid"],
                                      harness_timeout=a.timeout or max(h.get("timeout", 300) for h in hs), total_timeout=8 * 3600)
             if run["json"] is None:
                 log(run["out"][-6000:])
